@@ -25,7 +25,8 @@ TEMPLATES = {
 PADS = {
     "ascii": "abc xyz", "latin": "éàü ñç", "cjk": "日本語", "emoji": "😀😀", "mixed": "aé日😀",
 }
-PLACES = ["none", "comment-line-before", "string-same-line-before", "ident-same-line-before", "comment-after", "line-after", "two-lines-before"]
+PLACES = ["none", "comment-line-before", "string-same-line-before", "ident-same-line-before", "comment-after", "line-after", "two-lines-before",
+          "crlf-line-before", "crlf-three-lines-before"]          # earlier lines ending in carriage return + line feed
 LAYOUTS = ["single", "project-root", "project-module", "project-suffix"]
 
 def build(tmpl, pad, place, layout):
@@ -34,6 +35,8 @@ def build(tmpl, pad, place, layout):
     pre = ""
     if place == "comment-line-before": pre = f"# {padtxt}\n"
     elif place == "two-lines-before": pre = f"# {padtxt}\n# {padtxt} {padtxt}\n\n"
+    elif place == "crlf-line-before": pre = f"# {padtxt}\r\n"
+    elif place == "crlf-three-lines-before": pre = f"# {padtxt}\r\n\r\n# {padtxt}\r\n"
     body = text
     if place == "string-same-line-before":
         body = body.replace("from t |", f"from t | derive {{pad = \"{padtxt}\"}} |", 1)
